@@ -695,6 +695,10 @@ fn flatten_module<'a>(
         namespace.pop();
     }
     for (name, submod) in module.submodules.iter() {
+        // module names follow the same rules as function names (no dots, not empty, not `super`)
+        if !is_name_valid(name.as_ref()) {
+            return Err(CompilationErrorPayload::BadFunctionName(name.to_string()));
+        }
         namespace.push(name.as_ref());
         flatten_module(submod, recursion_limit, namespace, out)?;
         namespace.pop();
